@@ -60,7 +60,18 @@ def fault_corpus_job(run, W=16):
             "args": ["replay", "--seed", str(run.seed), os.path.join(vlib.VERIF, "corpus", "map_w%d_fault.ndjson" % W)]}
 
 
-def generic_check(run, models_q, models_t, jobs_q, jobs_t, rule, corpus=False, fault_corpus=False):
+def goal_jobs(run, W=16, plans=(1, 2, 3, 6)):
+    """Scripted goal scenarios (template states x every operation, see bin/gen-corpus)."""
+    return [{"name": "goals_w%d_p%d" % (W, p), "backend": "sse2" if W == 16 else "generic",
+             "args": ["replay", "--seed", str(run.seed), os.path.join(vlib.VERIF, "corpus", "map_w%d_goals_p%d.ndjson" % (W, p))]} for p in plans]
+
+
+def kind_goal_job(run, kind, W=16):
+    return {"name": "%sgoals_w%d" % (kind, W), "backend": "sse2" if W == 16 else "generic",
+            "args": ["replay", "--seed", str(run.seed), os.path.join(vlib.VERIF, "corpus", "%s_w%d_goals.ndjson" % (kind, W))]}
+
+
+def generic_check(run, models_q, models_t, jobs_q, jobs_t, rule, corpus=False, fault_corpus=False, goals=False, sgoals=False, tgoals=False):
     quick = run.tier == Q
     run.assumptions += COMMON_ASSUMPTIONS
     for m in (models_q if quick else models_q + models_t):
@@ -71,11 +82,20 @@ def generic_check(run, models_q, models_t, jobs_q, jobs_t, rule, corpus=False, f
         jl.append(corpus_job(run, 16))
         if not quick:
             jl.append(corpus_job(run, 8))
+    if goals:
+        jl += goal_jobs(run, 16, (1, 3) if quick else (1, 2, 3, 6))
+        if not quick:
+            jl += goal_jobs(run, 8)
+    for flag, kind in ((sgoals, "set"), (tgoals, "table")):
+        if flag:
+            jl.append(kind_goal_job(run, kind, 16))
+            if not quick:
+                jl.append(kind_goal_job(run, kind, 8))
     if fault_corpus:
         jl.append(fault_corpus_job(run, 16))
         if not quick:
             jl.append(fault_corpus_job(run, 8))
-    run.traces_parallel(jl)
+    run.traces_parallel(jl, workers=6)
     try:
         with open(os.path.join(vlib.VERIF, "corpus", "SUMMARY.json")) as f:
             run.extra["generated_behaviour_corpus"] = json.load(f)
@@ -142,7 +162,7 @@ def c06(run):
          ("table2", ["table:te32:onegroup:14:800:table", "table:te24:mixed:30:600:table:plan2=collide"])],
         [("table3", ["table:te208:collide:24:4000:table", "table:tea64:max:16:3000:table", "table:te24:lowbit:14:3000:table"]),
          ("tableg", ["table:te24:collide:20:3000:table", "table:t1:zero:14:2000:table"], G)],
-        "HashTable operations with caller-supplied hashes (two plans, duplicates of equal elements) validated against the multiset specification; iter_hash outputs, remove + re-insert through the returned VacantEntry, entry() at full load")
+        "HashTable operations with caller-supplied hashes (two plans, duplicates of equal elements) validated against the multiset specification; iter_hash outputs, remove + re-insert through the returned VacantEntry, entry() at full load", tgoals=True)
 
 
 def c07(run):
@@ -151,16 +171,16 @@ def c07(run):
          ("sets2", ["set:k8t:mixed:24:900:setalg:plan2=collide", "set:k1:onegroup:16:700:set"])],
         [("sets3", ["set:k8t:collide:20:4000:setalg:plan2=max", "set:k2:posfix:14:3000:setalg", "set:k8:tagfix:30:3000:set"]),
          ("setsg", ["set:k8t:collide:20:3000:setalg", "set:k8t:zero:12:2000:set"], G)],
-        "pairs of sets built by random histories under independent hash plans; every algebra iterator, predicate, operator and assigning form compared with the mathematical result")
+        "pairs of sets built by random histories under independent hash plans; every algebra iterator, predicate, operator and assigning form compared with the mathematical result", sgoals=True)
 
 
 def c08(run):
     return generic_check(run, [("MC_map_w2q.cfg", "MC_map.tla", {"timeout": 300})], [],
         [("cap", ["map:kv16:collide:24:1200:cap", "map:k4v4:zero:14:700:cap", "map:kv200:mixed:40:500:cap"]),
-         ("capset", ["set:k1:collide:20:700:set", "set:k2:fewpos:16:500:set"])],
+         ("capset", ["set:k1:collide:20:500:set", "set:k3:fewpos:16:300:set", "set:k6:zero:12:300:set", "map:k3v4:collide:14:300:cap", "map:k5v4:onegroup:12:300:cap"])],
         [("cap2", ["map:kv24:onegroup:14:3000:cap", "map:kva64:fewpos:30:3000:cap", "map:k1v4:max:12:3000:cap"]),
          ("capg", ["map:kv16:collide:24:3000:cap", "set:k1:zero:14:2000:set"], G)],
-        "capacity()/len()/allocation_size() and allocator events recorded around every call and checked against the capacity contract on tombstoned states", corpus=True)
+        "capacity()/len()/allocation_size() and allocator events recorded around every call and checked against the capacity contract on tombstoned states", corpus=True, goals=True)
 
 
 def c09(run):
@@ -169,7 +189,7 @@ def c09(run):
          ("iterset", ["set:k8t:collide:40:700:set", "set:k1:zero:30:500:set"])],
         [("iter2", ["map:kv16:onegroup:12:3000:iter", "map:kv200:fewpos:60:3000:iter", "map:kv16:max:40:3000:iter"]),
          ("iterg", ["map:kv16:collide:40:3000:iter", "set:k8t:zero:30:2000:set"], G)],
-        "every wrapper iterator walked with next/fold switch and clone points in every visited state; bucket index of each yield and every size_hint/len validated")
+        "every wrapper iterator walked with next/fold switch and clone points in every visited state; bucket index of each yield and every size_hint/len validated", goals=True, tgoals=True)
 
 
 def c10(run):
@@ -180,7 +200,7 @@ def c10(run):
                        "set:k8t:collide:20:400:set:fault=30,fclass=drop"])],
         [("sel2", ["map:kv16:onegroup:12:3000:iter", "map:kv200:fewpos:60:3000:iter"]),
          ("selg", ["map:kv16:collide:40:3000:iter", "set:k8t:zero:30:2000:set"], G)],
-        "retain / extract_if / drain with random predicates (subsets) and early-drop points; predicate calls, yields and post-state validated")
+        "retain / extract_if / drain with random predicates (subsets) and early-drop points; predicate calls, yields and post-state validated", goals=True, sgoals=True, tgoals=True)
 
 
 def c11(run):
@@ -189,17 +209,18 @@ def c11(run):
          ("twoset", ["set:k8t:collide:20:900:setalg:plan2=mixed"])],
         [("two2", ["map:kv200:onegroup:14:3000:two", "map:kva64:fewpos:30:3000:two:plan2=collide"]),
          ("twog", ["map:kv16:collide:24:3000:two:plan2=mixed"], G)],
-        "ordered pairs (target, source) of tables built by random histories under different plans; clone / clone_from / == validated incl. fresh identities of the clones and later independence")
+        "ordered pairs (target, source) of tables built by random histories under different plans; clone / clone_from / == validated incl. fresh identities of the clones and later independence", goals=True)
 
 
 def c12(run):
     return generic_check(run, [], [],
         [("tryres", ["map:kv16:collide:24:900:tryres:fault=35", "map:k1v4:zero:14:500:tryres:fault=35", "map:kv200:mixed:30:400:tryres:fault=35"]),
+         ("tryresset", ["set:k1:collide:20:400:tryres:fault=35", "set:k3:zero:12:300:tryres:fault=35", "set:k2:fewpos:14:300:tryres:fault=35"]),
          ("tryres2", ["map:k3v4:fewpos:20:500:tryres:fault=35", "map:kva64:onegroup:12:400:tryres:fault=35"])],
         [("tryres3", ["map:kv24:collide:40:4000:tryres:fault=35", "map:k5v4:max:20:3000:tryres:fault=35", "map:k8v4:seq:48:3000:tryres:fault=35"]),
          ("tryresg", ["map:kv16:collide:24:3000:tryres:fault=35", "map:k1v4:zero:14:2000:tryres:fault=35"], G)],
         "try_reserve on random states with amounts 0..small, around 7/8*2^k, and near isize::MAX / usize::MAX (classified symbolically), with the "
-        "allocator refusing the j-th request: result class, refused layout, unchanged state and ledger validated")
+        "allocator refusing the j-th request: result class, refused layout, unchanged state and ledger validated", goals=True, sgoals=True)
 
 
 def c17(run):
@@ -354,7 +375,7 @@ def c14(run):
          ("entry2", ["map:k4v4:onegroup:14:800:entry", "set:k8t:collide:20:600:set"])],
         [("entry3", ["map:kv24:fewpos:30:4000:entry", "map:kv200:max:20:3000:entry"]),
          ("entryg", ["map:kv16:collide:24:3000:entry"], G)],
-        "every entry / entry_ref / raw_entry / rustc_entry method chain on random states incl. full-load and tombstone-saturated tables, compared with the get/insert/remove semantics of the abstract map", corpus=True)
+        "every entry / entry_ref / raw_entry / rustc_entry method chain on random states incl. full-load and tombstone-saturated tables, compared with the get/insert/remove semantics of the abstract map", corpus=True, goals=True)
 
 
 def c15(run):
@@ -362,7 +383,7 @@ def c15(run):
         [("many", ["map:kv16:collide:16:1500:many", "map:k4v4:zero:10:800:many"])],
         [("many2", ["map:kv24:lowbit:12:4000:many", "map:kv200:onegroup:14:3000:many"]),
          ("manyg", ["map:kv16:collide:16:3000:many"], G)],
-        "random N-tuples (N = 0..4) incl. duplicates and absent keys; addresses of the returned references mapped to bucket indices and checked pairwise distinct")
+        "random N-tuples (N = 0..4) incl. duplicates and absent keys; addresses of the returned references mapped to bucket indices and checked pairwise distinct", tgoals=True)
 
 
 CHECKS = {
